@@ -39,7 +39,11 @@ pub fn legs(prop: &str, tier: Tier) -> Vec<Leg> {
         }
         "C02" => {
             if n {
-                vec![]
+                // the receivers instantiated with the protected containers
+                vec![
+                    leg("box-n", "box", if q { 60_000 } else { 1_000_000 }, &["deliver.identical", "deliver.corrupted.rejected", "flip.tag", "flip.body", "truncate", "extend"]),
+                    leg("stream-n", "stream", if q { 60_000 } else { 1_000_000 }, &["deliver.next.accepted", "deliver.corrupted.rejected", "flip.body", "flip.mac", "truncate", "extend"]),
+                ]
             } else {
                 vec![
                     leg("box", "box", if q { 300_000 } else { 6_000_000 }, &["deliver.identical", "deliver.corrupted.rejected", "flip.tag", "flip.body", "flip.nonce", "flip.epk", "flip.key", "truncate", "extend"]),
